@@ -120,6 +120,10 @@ def main(argv=None):
         with ctx.Pool(jobs) as pool:
             results = pool.map(_run_task, range(len(_TASKS)), chunksize=1)
 
+    alt_note = None
+    if hasattr(mod, "postprocess") and not a.only:
+        results, alt_note = mod.postprocess(results)
+
     # ------------------------------------------------------------------ aggregate
     obligations = {}   # id -> aggregated record
     errors, undecided = [], []
@@ -243,6 +247,8 @@ def main(argv=None):
         "bounded_standins": bounded,
         "not_decided": list(getattr(mod, "NOT_DECIDED", [])),
     }
+    if alt_note:
+        coverage["alternative"] = alt_note
     if not coverage["explanation"]:
         coverage["explanation"] = "all obligations generated from the current source were discharged"
     evidence = {
